@@ -184,9 +184,40 @@ fn processes(ctx: &mut Ctx) {
     }
 }
 
+/// a U-ALLOC program through the real command line: `run` and `execute`, log on/off
+fn cli_case(ctx: &mut Ctx, stmts: &[E]) {
+    let r = refsem::run(stmts);
+    if r.status == Status::Unspec { return }
+    let exe = ctx.exe.clone();
+    let text = show(stmts);
+    let expected = linearise(&r.allocs, true).len();
+    let f = cli::write_file(&ctx.scratch, "a.fml", text.as_bytes());
+    let ast = ctx.scratch.join("a.json"); let bcf = ctx.scratch.join("a.bc");
+    cli::simple(&exe, &["parse", f.to_str().unwrap(), "-o", ast.to_str().unwrap()]);
+    cli::simple(&exe, &["compile", ast.to_str().unwrap(), "-o", bcf.to_str().unwrap()]);
+    let base = cli::simple(&exe, &["run", f.to_str().unwrap()]);
+    for (action, input) in [("run", f.clone()), ("execute", bcf.clone())] {
+        let lp = ctx.scratch.join(format!("{}.csv", action));
+        let _ = std::fs::remove_file(&lp);
+        let res = cli::simple(&exe, &[action, input.to_str().unwrap(), "--heap-log", lp.to_str().unwrap(), "--heap-size", "1"]);
+        ctx.count("cli_runs", 1);
+        let content = std::fs::read_to_string(&lp).unwrap_or_default();
+        let lg = parse_log(&content);
+        let mut problems = lg.problems.clone();
+        if res.stdout != base.stdout || res.code != base.code { problems.push("output or exit status differ from the run without flags".to_string()) }
+        if !lg.header_ok { problems.push("header".to_string()) }
+        if lg.records.len() != expected { problems.push(format!("{} allocation records, the program creates {} arrays/objects", lg.records.len(), expected)) }
+        if !problems.is_empty() {
+            ctx.violation("heaplog/cli-log-does-not-match-allocations", "the heap log written by the command line does not describe the program's allocation history",
+                json!({"text": text, "action": action, "problems": problems, "log": content.chars().take(400).collect::<String>(), "cli": format!("fml {} <file> --heap-log log.csv --heap-size 1", action)}));
+        }
+    }
+}
+
 pub fn run(ctx: &mut Ctx) {
     ctx.stage("U-ALLOC");
-    for p in alloc_universe() { if ctx.take().is_some() { case(ctx, "U-ALLOC", &p) } }
+    let stride = if ctx.quick() { 7 } else { 1 };
+    for (i, p) in alloc_universe().into_iter().enumerate() { if ctx.take().is_some() { case(ctx, "U-ALLOC", &p); if i % stride == 0 { cli_case(ctx, &p) } } }
     let n = if ctx.quick() { 3 } else { 4 };
     let mut g = sem::grammar();
     g.prepare(n);
